@@ -114,7 +114,7 @@ func decisions(fns []*ssa.Function) []decision {
 				d := decision{call: c, fn: f, kind: calleeName(c), key: keys[c]}
 				args := callArgs(c)
 				opt := args[len(args)-1]
-				d.fields, _ = litFields(opt)
+				d.fields, _ = litFieldsAt(opt, c)
 				out = append(out, d)
 			}
 		}
